@@ -33,7 +33,7 @@ func Check() *engine.Check {
 			"loaded state must answer and a second, valid change must be applied. (1) key/trust stores: for each of the PEM bundle shapes " +
 			"(supported: P-256/384/521, RSA 2048 [3072/4096 thorough], SEC1/PKCS#1/PKCS#8/encrypted PKCS#8, with/without chain, key id; " +
 			"unsupported but parseable: RSA 1024, P-224, Ed25519, certificate only, empty, unknown block, headers only, foreign/expired " +
-			"certificate, mutually issuing certificates ...) the complete file, the file truncated at EVERY byte offset (quick: RSA bundles " +
+			"certificate, mutually issuing certificates, an issuer ring of three ...) the complete file, the file truncated at EVERY byte offset (quick: RSA bundles " +
 			"only at PEM block boundaries +-1 and every 64th offset) and with every single block removed, x {jwt signer, tls key store, " +
 			"http message signatures} x {construction, OnChanged} x key id {first, named}; trust store loading strict/lenient. " +
 			"(2) rule sets: type-confusion grammar over a valid rule set document (every node replaced by each of null,true,7,\"s\",[],[x],{},{k:v}; " +
@@ -41,7 +41,9 @@ func Check() *engine.Check {
 			"OnCreated/OnUpdated (scripted and real mechanism catalogue) and through the file_system provider event callback. " +
 			"(3) remote responses: same grammar + every truncation offset x content types {json, form, missing} for JWKS, OAuth2 metadata, " +
 			"introspection, identity, authorization and contextualizer responses through the real mechanisms' Execute. (4) malformed request " +
-			"menus through the decision handler and the envoy ext_authz service including their recovery layers. " +
+			"menus through the decision handler and the envoy ext_authz service including their recovery layers. (5) the hot reloaded credentials " +
+			"file of the redis cache: the new version cut at every byte offset, null / empty / scalar / list / ill-typed documents, at creation " +
+			"and on reload, followed by the fetch of the credentials the redis client performs on its own goroutines. " +
 			"A case is non-trivial when its input is not a complete valid document (it is a truncation, a removal or a type confusion); " +
 			"distinct = distinct (part, entry point, document, mutation).",
 		Assumptions: []string{
@@ -80,6 +82,7 @@ func allUnits(c *engine.Ctx) []unit {
 	units = append(units, ruleSetUnits(c)...)
 	units = append(units, remoteUnits(c)...)
 	units = append(units, requestUnits(c)...)
+	units = append(units, redisCredsUnits(c)...)
 
 	return units
 }
@@ -556,6 +559,8 @@ func replay(c *engine.Ctx, raw json.RawMessage) {
 		replayRemote(c, raw)
 	case "request":
 		replayRequest(c, raw)
+	case "redis-credentials":
+		replayRedisCreds(c, raw)
 	default:
 		c.Infra("unknown part %q", probe.Part)
 	}
